@@ -33,6 +33,9 @@ BirthdayOK == (Rec.op = "birthday" /\ Done) =>
     /\ Rec.collisions <= 200
     /\ Rec.collisions * 2 * Rec.space <= 5 * Rec.M * (Rec.M - 1)
     /\ Has("outputs") => \A j \in 1..Len(Rec.outputs) : ValidMap(DecM(Rec.outputs[j]))
+\* five qubits: |Sp(10,2)| = 2.5 * 10^16 symplectic tables, so among 200 000 uniform draws a repeated table has
+\* probability below 10^-6: none may occur (a sampler that can only produce a few billion tables repeats itself)
+BigBirthdayOK == (Rec.op = "bigbirthday" /\ Done) => Rec.n >= 5 /\ Rec.M >= 100000 /\ Rec.M <= 400000 /\ Rec.collisions = 0
 \* fair binary events (sign bits, measurement coins): |c0 - c1| <= 8 sqrt(n)  <=>  (c0-c1)^2 <= 64 n
 \* per-qubit letter tallies of the images of X_1 and Z_1 (rows 1, 2 of the map) over M samples: each of I, X, Y, Z
 \* in a quarter of the samples -- (4c - M)^2 <= 64 * 3M is 8 sigma of the binomial(M, 1/4); counts add up to M
